@@ -493,6 +493,14 @@ impl World for RwWorld {
         m
     }
 
+    fn pending(&self) -> usize {
+        self.futs.values().filter(|x| x.polled && !x.done).count()
+    }
+
+    fn score(&self) -> usize {
+        self.guards.len()
+    }
+
     fn repoll_op(&self, f: u32) -> Option<String> {
         self.futs.get(&f).filter(|x| !x.done).map(|x| format!("poll {} {} 0", f, x.last_waker))
     }
